@@ -28,9 +28,14 @@ func init() {
 	replays["C15"] = func(r *Result, raw json.RawMessage) {
 		var rp struct {
 			Case c15Stream `json:"case"`
+			Ops  []string  `json:"ops"`
 		}
 		if err := json.Unmarshal(raw, &rp); err != nil {
 			r.Notes = append(r.Notes, "replay: "+err.Error())
+			return
+		}
+		if len(rp.Ops) > 0 && rp.Ops[0] == "extreme-arguments" {
+			extremeArgsProbe(r)
 			return
 		}
 		env := newC15Env()
@@ -315,6 +320,7 @@ func judgeC15(r *Result, env *c15Env, streams []c15Stream) {
 }
 
 func checkC15(r *Result, rng *rand.Rand, thorough bool) {
+	extremeArgsProbe(r)
 	env := newC15Env()
 	defer env.close()
 	r.Rule = "streams over a real record-marking TCP connection: valid NFS/MOUNT calls for every procedure, each mutated (byte flips, field overwrites with 0/0xffffffff/0x7fffffff), truncated at every point, reframed into fragments (including empty ones), interleaved with random bytes, records with huge declared fragment/opaque/auth lengths, records over the 1 MiB limit assembled from small fragments; decodability decided by the Lean model of DecodeRPCCall; reply XID sequence, connection closure, allocation per stream and a probe client checked"
@@ -439,4 +445,117 @@ func checkC15(r *Result, rng *rand.Rand, thorough bool) {
 	}
 	judgeC15(r, env, streams)
 	r.sample(fmt.Sprintf("%d streams", len(streams)))
+}
+
+// ---- extreme but well-formed arguments, in a child process ----
+// Every procedure that takes numbers from the client is called on live handles with boundary values (cookies,
+// offsets, counts, sizes, masks at 2^31, 2^32-1, 2^63-1, 2^63, 2^64-1; maximal names). A panic in a handler
+// goroutine kills the whole process, so the calls run in a child: the parent learns which call it was.
+
+func init() {
+	children["c15-extreme"] = func(args []string) {
+		env := newC15Env()
+		root := env.root
+		dirH, _ := env.w.handleFor("/d", rootCred())
+		fileH, _ := env.w.handleFor("/f", rootCred())
+		conn, err := net.DialTimeout("tcp", fmt.Sprintf("127.0.0.1:%d", env.port), 2*time.Second)
+		if err != nil {
+			fmt.Println("step dial: " + err.Error())
+			return
+		}
+		defer conn.Close()
+		xid := uint32(5000)
+		for _, c := range extremeCalls(root, dirH, fileH) {
+			xid++
+			fmt.Printf("step %s\n", c.desc)
+			_, err := rmCall(conn, xid, c.prog, 3, c.proc, c.args)
+			if err != nil {
+				// the server may refuse and even close the connection; what it must not do is die
+				conn.Close()
+				conn, err = net.DialTimeout("tcp", fmt.Sprintf("127.0.0.1:%d", env.port), 2*time.Second)
+				if err != nil {
+					fmt.Println("step reconnect-failed: " + err.Error())
+					return
+				}
+			}
+			fmt.Println("ok")
+		}
+		if conformantClient(env.port) != "rm" {
+			fmt.Println("step probe-client-not-served")
+			return
+		}
+		fmt.Println("ok")
+	}
+}
+
+type extremeCall struct {
+	desc       string
+	prog, proc uint32
+	args       []byte
+}
+
+func extremeCalls(root, dirH, fileH uint64) []extremeCall {
+	var out []extremeCall
+	big64 := []uint64{1 << 31, 1<<32 - 1, 1 << 32, 1<<63 - 1, 1 << 63, 1<<63 + 1, 1<<64 - 1}
+	big32 := []uint32{0, 1, 1<<31 - 1, 1 << 31, 1<<32 - 1}
+	for _, d := range []uint64{root, dirH, fileH} {
+		for _, ck := range big64 {
+			for _, cnt := range []uint32{0, 4096, 1<<32 - 1} {
+				out = append(out, extremeCall{fmt.Sprintf("READDIR handle=%d cookie=%d count=%d", d, ck, cnt), progNFS, 16, argReaddir(d, ck, zeroVerf, cnt)})
+				out = append(out, extremeCall{fmt.Sprintf("READDIRPLUS handle=%d cookie=%d maxcount=%d", d, ck, cnt), progNFS, 17, argReaddirplus(d, ck, zeroVerf, cnt, cnt)})
+			}
+		}
+	}
+	for _, off := range append([]uint64{0, 5, 10, 11}, big64...) {
+		for _, cnt := range big32 {
+			out = append(out, extremeCall{fmt.Sprintf("READ offset=%d count=%d", off, cnt), progNFS, 6, argRead(fileH, off, cnt)})
+			out = append(out, extremeCall{fmt.Sprintf("COMMIT offset=%d count=%d", off, cnt), progNFS, 21, argCommit(fileH, off, cnt)})
+		}
+		if off >= 1<<31 {
+			out = append(out, extremeCall{fmt.Sprintf("WRITE offset=%d 3 bytes", off), progNFS, 7, argWrite(fileH, off, 3, 2, []byte("abc"))})
+			out = append(out, extremeCall{fmt.Sprintf("WRITE offset=%d count field %d with 3 bytes", off, uint32(off)), progNFS, 7, argWrite(fileH, off, uint32(off), 2, []byte("abc"))})
+			sz := off
+			out = append(out, extremeCall{fmt.Sprintf("SETATTR size=%d", off), progNFS, 2, argSetattr(fileH, Sattr{Size: &sz}, nil)})
+			out = append(out, extremeCall{fmt.Sprintf("CREATE size=%d", off), progNFS, 8, argCreate(root, "big", 0, Sattr{Size: &sz}, nil)})
+		}
+	}
+	for _, m := range big32 {
+		out = append(out, extremeCall{fmt.Sprintf("ACCESS mask=%d", m), progNFS, 4, cat(fh(root), u32(m))})
+		mm := m
+		out = append(out, extremeCall{fmt.Sprintf("SETATTR mode=%d uid=%d", m, m), progNFS, 2, argSetattr(fileH, Sattr{Mode: &mm, UID: &mm, GID: &mm}, nil)})
+		out = append(out, extremeCall{fmt.Sprintf("CREATE how=%d", m), progNFS, 8, cat(argDirop(root, "h"), u32(m))})
+		out = append(out, extremeCall{fmt.Sprintf("WRITE stable=%d", m), progNFS, 7, argWrite(fileH, 0, 3, m, []byte("abc"))})
+		out = append(out, extremeCall{fmt.Sprintf("MKNOD type=%d", m), progNFS, 11, cat(argDirop(root, "n"), u32(m))})
+	}
+	for _, n := range []int{255, 256, 8192, 8193} {
+		name := strings.Repeat("n", n)
+		out = append(out, extremeCall{fmt.Sprintf("LOOKUP name of %d bytes", n), progNFS, 3, argDirop(root, name)},
+			extremeCall{fmt.Sprintf("SYMLINK target of %d bytes", n), progNFS, 10, argSymlink(root, "s", Sattr{}, name)},
+			extremeCall{fmt.Sprintf("RENAME to a name of %d bytes", n), progNFS, 14, argRename(root, "f", root, name)},
+			extremeCall{fmt.Sprintf("MNT path of %d bytes", n), progMount, 1, xdrOpaque([]byte("/" + name))})
+	}
+	return out
+}
+
+// extremeArgsProbe runs the child and reports the step that killed it, if any.
+func extremeArgsProbe(r *Result) {
+	lines, stderr, finished := runChild("c15-extreme")
+	steps := 0
+	last := ""
+	for _, l := range lines {
+		if strings.HasPrefix(l, "step ") {
+			steps++
+			last = strings.TrimPrefix(l, "step ")
+		}
+	}
+	r.noteCase("extreme-arguments", true)
+	r.Histogram["extreme-argument-calls"] += steps
+	if finished && (len(lines) < 2 || lines[len(lines)-2] == "ok") {
+		return
+	}
+	what := fmt.Sprintf("the server process died (or stopped serving) during the well-formed call %q", last)
+	if strings.HasPrefix(last, "probe-client") || strings.HasPrefix(last, "reconnect-failed") || strings.HasPrefix(last, "dial") {
+		what = "after the boundary-value calls the server no longer serves a conformant client: " + last
+	}
+	r.violate(Violation{Class: "C15/server-died", What: what, Detail: stderr, Ops: []string{"extreme-arguments"}})
 }
